@@ -210,6 +210,7 @@ def _tables(rng, op, maxrows):
 
 def gen_case(rng, tier, g):
     case = _gen_case(rng, tier, g)
+    case['fluent'] = rng.random() < 0.15
     # the host application's petl.config / logging set-up must not matter
     cfg = draw_config(rng, 0.12, exclude=('sort_buffersize', 'failonerror'))
     if cfg:
@@ -382,6 +383,15 @@ def _key_cells_present(table, key):
     return all(all(i < len(r) for i in idx) for r in table[1:])
 
 
+def _style(e, case):
+    # the call under test in method-call style (the references keep the
+    # function style)
+    if case.get('fluent'):
+        from sim.loader import Fluent
+        return Fluent(e)
+    return e
+
+
 def _run_knobs(e, case, log, sb, probes):
     import petl.config as config
     op = OPS[case['op']]
@@ -424,7 +434,7 @@ def _run_knobs(e, case, log, sb, probes):
         try:
             srcs = [SimTable(t, mode='alias') for t in _typed(ins, rt)]
             try:
-                vs = _views(op.build(e, srcs, kw), op)
+                vs = _views(op.build(_style(e, case), srcs, kw), op)
                 for p in (1, 2):
                     got = [_rows(v) for v in vs]
                     nruns += 1
@@ -499,7 +509,7 @@ def _run_history_(e, case, log, sb, probes):
         kw = {}
     srcs = [SimTable(t, mode='alias', name='s%d' % i)
             for i, t in enumerate(tables)]
-    vs = _views(op.build(e, _upstream(e, op, srcs), kw), op)
+    vs = _views(op.build(_style(e, case), _upstream(e, op, srcs), kw), op)
     # versions of each source seen at the start of a pass
     versions = [[] for _ in tables]
     completed = {}          # view index -> rows of the first completed pass
